@@ -503,7 +503,12 @@ class Ctx:
         json.dump(ev, open(os.path.join(VERIF, "evidence", self.pid + ".json"), "w"), indent=1, default=str)
         for key, what in self.known:
             print("KNOWN-FINDING: property=%s %s: %s" % (self.pid, key, what))
+        concrete = [v for v in self.violations if not v[3]]
         for key, what, path, no_input in self.violations:
+            if no_input and concrete:
+                # a broken theorem / tie whose failing input was found: the VIOLATION line is the one that carries the input
+                print("BROKEN (explained by the failing input reported below/above): %s -- %s" % (key, path))
+                continue
             print("VIOLATION property=%s replay=%s%s" % (self.pid, path, " no-failing-input-found" if no_input else ""))
             print("  key: %s" % key)
             print("  what: " + what[:1500].replace("\n", " "))
